@@ -75,6 +75,9 @@ def cls_by_name(n):
     raise KeyError(n)
 
 
+SAFETY_TIMEOUT = 3.0
+
+
 class KATimeout(BaseException):
     """Stands for gevent.Timeout(keepalive, False): raised inside next(parser), swallowed by timeout_ctx."""
 
@@ -155,7 +158,8 @@ class TSock:
     def setblocking(self, b):
         self.blocking = bool(b)
         if self.real is not None and self.real.fileno() >= 0:
-            self.real.setblocking(b)
+            # a blocking real socket gets a safety timeout: the harness never leaves a client silent
+            self.real.settimeout(SAFETY_TIMEOUT if b else 0.0)
 
     def gettimeout(self):
         return None if self.blocking else 0.0
@@ -289,7 +293,7 @@ class World:
     """One worker object of the given kind with recording logger / parser / app."""
 
     def __init__(self, kind, max_requests=0, jitter=0, jitter_pick=0, keepalive=2, sendfile=True,
-                 worker_connections=1000, threads=1, access_fmt=None, fixed_time=False):
+                 worker_connections=1000, threads=1, access_fmt=None, fixed_time=False, extra=None):
         import gunicorn.config
         import gunicorn.glogging
         import gunicorn.http
@@ -319,6 +323,8 @@ class World:
             cfg.set("sendfile", False)
         if access_fmt is not None:
             cfg.set("access_log_format", access_fmt)
+        for k, v in (extra or {}).items():
+            cfg.set(k, v)
         self.cfg = cfg
 
         class RecLogger(gunicorn.glogging.Logger):
@@ -347,51 +353,6 @@ class World:
         log.error_log.propagate = False
         self.log = log
 
-        # the parser: the real RequestParser, recorded; scripted overrides per call
-        self.real_parser_cls = gunicorn.http.RequestParser
-
-        class RecParser(self.real_parser_cls):
-            def __next__(self):
-                k = world.pcount
-                world.pcount += 1
-                o = world.pscript.get(k)
-                if o is not None:
-                    if o[0] == "none":
-                        world.trace.append(("pnone",))
-                        return None
-                    e = build_exc(o[1])
-                    world.trace.append(("praise", cls_id(e), exc_spec(e)))
-                    raise e
-                try:
-                    req = super().__next__()
-                except KATimeout:
-                    world.trace.append(("pnone",))
-                    raise
-                except BaseException as e:
-                    world.trace.append(("praise", cls_id(e), exc_spec(e)))
-                    raise
-                world.trace.append(("head", head_summary(req)))
-                return req
-            next = __next__
-        self.RecParser = RecParser
-        self.http_mod = gunicorn.http
-        self.wsgi_mod = gunicorn.http.wsgi
-        self.real_create = gunicorn.http.wsgi.create
-
-        def rec_create(req, sock, client, server, cfg_):
-            try:
-                return world.real_create(req, sock, client, server, cfg_)
-            except OSError:
-                raise
-            except BaseException as e:
-                # wsgi.create itself refused the request (ConfigurationProblem)
-                for i in range(len(world.trace) - 1, -1, -1):
-                    if world.trace[i][0] == "head":
-                        world.trace[i][1]["create_exn"] = exc_spec(e)
-                        break
-                raise
-        self.rec_create = rec_create
-
         saved_randint = wbase.randint
         wbase.randint = lambda a, b: min(b, max(a, jitter_pick))
         try:
@@ -411,6 +372,23 @@ class World:
             wbase.randint = saved_randint
         self.w.wsgi = self.wsgi_app
         self.tmpfiles = []
+        self.last_access_args = None
+
+    def begin(self, apps=(), pscript=None):
+        """reset the per-connection recording"""
+        self.trace = []
+        self.lines = []
+        self.app_calls = 0
+        self.apps = list(apps)
+        self.eff_apps = []
+        self.pscript = dict(pscript or {})
+        self.pcount = 0
+        self.environs = []
+        for f in self.tmpfiles:
+            f.close()
+        self.tmpfiles = []
+        w = self.w
+        return (w.nr, w.alive, getattr(w, "nr_conns", 0))
 
     # ---- the application
     def wsgi_app(self, environ, start_response):
@@ -485,15 +463,12 @@ class World:
                 raise StopIteration
         return It()
 
-    # ---- patching
+    # ---- patching (global, shared by all worlds: see install_patches)
     def __enter__(self):
-        self.http_mod.RequestParser = self.RecParser
-        self.wsgi_mod.create = self.rec_create
+        install_patches()
         return self
 
     def __exit__(self, *a):
-        self.http_mod.RequestParser = self.real_parser_cls
-        self.wsgi_mod.create = self.real_create
         for f in self.tmpfiles:
             f.close()
         self.tmpfiles = []
@@ -510,6 +485,9 @@ class World:
     # ---- one connection
     def serve(self, sock, addr=("10.0.0.1", 4321), max_rounds=64):
         """Serve one connection on the worker.  Returns the exception that escaped (or None)."""
+        global CURRENT
+        install_patches()
+        CURRENT = self
         w = self.w
         escaped = None
         if self.kind in ("sync", "async"):
@@ -536,6 +514,73 @@ class World:
         else:
             raise RuntimeError("gthread connection did not end")
         return escaped
+
+
+CURRENT = None          # the world whose worker is serving right now
+_PATCH = {}
+
+
+def install_patches():
+    """Substitute gunicorn.http.RequestParser by a recording subclass and wrap gunicorn.http.wsgi.create,
+    once; both report to the world that is currently serving."""
+    if _PATCH:
+        return
+    import gunicorn.http
+    import gunicorn.http.wsgi
+    real_parser = gunicorn.http.RequestParser
+    real_create = gunicorn.http.wsgi.create
+
+    class RecParser(real_parser):
+        def __next__(self):
+            world = CURRENT
+            k = world.pcount
+            world.pcount += 1
+            o = world.pscript.get(k)
+            if o is not None:
+                if o[0] == "none":
+                    world.trace.append(("pnone",))
+                    return None
+                e = build_exc(o[1])
+                world.trace.append(("praise", cls_id(e), exc_spec(e)))
+                raise e
+            try:
+                req = super().__next__()
+            except KATimeout:
+                world.trace.append(("pnone",))
+                raise
+            except BaseException as e:
+                world.trace.append(("praise", cls_id(e), exc_spec(e)))
+                raise
+            world.trace.append(("head", head_summary(req)))
+            return req
+        next = __next__
+
+    def rec_create(req, sock, client, server, cfg_):
+        world = CURRENT
+        try:
+            return real_create(req, sock, client, server, cfg_)
+        except OSError:
+            raise
+        except BaseException as e:
+            # wsgi.create itself refused the request (ConfigurationProblem)
+            for i in range(len(world.trace) - 1, -1, -1):
+                if world.trace[i][0] == "head":
+                    world.trace[i][1]["create_exn"] = exc_spec(e)
+                    break
+            raise
+    _PATCH["parser"] = real_parser
+    _PATCH["create"] = real_create
+    gunicorn.http.RequestParser = RecParser
+    gunicorn.http.wsgi.create = rec_create
+
+
+def remove_patches():
+    if not _PATCH:
+        return
+    import gunicorn.http
+    import gunicorn.http.wsgi
+    gunicorn.http.RequestParser = _PATCH.pop("parser")
+    gunicorn.http.wsgi.create = _PATCH.pop("create")
 
 
 def head_summary(req):
@@ -720,3 +765,197 @@ def model_expr(world, st0, keep_len=0):
                                    vlib.coq_Z(world.cfg.worker_connections - world.cfg.threads))
     st = "(St %d%%N %s %s %s)" % (st0[0], vlib.coq_bool(st0[1]), vlib.coq_Z(keep_len), vlib.coq_Z(st0[2]))
     return "obs (connection %s %s %s [%s] [%s] [%s])" % (WK[world.kind], cfg, st, "; ".join(ps), "; ".join(apps), "; ".join(faults))
+
+
+# --------------------------------------------------------------------------------------------------
+# a strict HTTP/1.x response reader (the harness' own, independent of gunicorn and of the Coq model)
+# --------------------------------------------------------------------------------------------------
+import re as _re
+
+_STATUS_RE = _re.compile(rb"HTTP/1\.[01] ([0-9]{3}) ([^\r\n]*)\r\n")
+_FIELD_RE = _re.compile(rb"([!#$%&'*+\-.^_`|~0-9A-Za-z]+):[ \t]*([^\r\n]*?)[ \t]*\r\n")
+_CHUNK_RE = _re.compile(rb"([0-9A-Fa-f]+)\r\n")
+
+
+def read_response(buf, pos=0, head_req=False):
+    """Read one response starting at buf[pos].  Returns a dict:
+       ok (well-formed so far), complete (the whole message is there), end (offset after it),
+       status, reason, fields [(lower name, value)], body (decoded), framing ("chunked"|"length"|"none"|"close"),
+       why (text when not ok)."""
+    r = {"ok": False, "complete": False, "end": pos, "status": None, "reason": None, "fields": [], "body": b"",
+         "framing": None, "why": ""}
+    m = _STATUS_RE.match(buf, pos)
+    if not m:
+        r["why"] = "bad or truncated status line"
+        # a strict prefix of something that could become a status line is "truncated", not malformed
+        r["truncated"] = b"\r\n" not in buf[pos:]
+        return r
+    r["status"] = int(m.group(1))
+    r["reason"] = m.group(2)
+    p = m.end()
+    fields = []
+    while True:
+        if buf.startswith(b"\r\n", p):
+            p += 2
+            break
+        fm = _FIELD_RE.match(buf, p)
+        if not fm:
+            r["why"] = "bad or truncated field line"
+            r["truncated"] = b"\r\n" not in buf[p:]
+            return r
+        fields.append((fm.group(1).lower(), fm.group(2)))
+        p = fm.end()
+    r["fields"] = fields
+    te = [v for k, v in fields if k == b"transfer-encoding"]
+    cl = [v for k, v in fields if k == b"content-length"]
+    st = r["status"]
+    if te:
+        if te != [b"chunked"] or cl:
+            r["why"] = "bad transfer-encoding / content-length combination"
+            return r
+    if len(cl) > 1 or (cl and not cl[0].isdigit()):
+        r["why"] = "bad content-length"
+        return r
+    r["ok"] = True
+    if head_req or st < 200 or st in (204, 304):
+        # no body; (gunicorn may still have written one for HEAD: that shows up as leftover)
+        r["framing"] = "none"
+        r["complete"] = True
+        r["end"] = p
+        return r
+    if te:
+        r["framing"] = "chunked"
+        body = b""
+        while True:
+            cm = _CHUNK_RE.match(buf, p)
+            if not cm:
+                r["why"] = "truncated or bad chunk-size line"
+                r["end"] = p
+                r["body"] = body
+                r["ok"] = (buf[p:p + 20].strip(b"0123456789abcdefABCDEF") in (b"", b"\r")) and b"\r\n" not in buf[p:]
+                return r
+            n = int(cm.group(1), 16)
+            p = cm.end()
+            if n == 0:
+                if buf.startswith(b"\r\n", p):
+                    r["complete"] = True
+                    r["end"] = p + 2
+                    r["body"] = body
+                    return r
+                r["why"] = "last chunk not followed by CRLF"
+                r["ok"] = len(buf) - p < 2 and b"\r\n".startswith(buf[p:])
+                r["end"] = p
+                r["body"] = body
+                return r
+            if len(buf) < p + n + 2:
+                r["why"] = "truncated chunk"
+                r["body"] = body + buf[p:p + n]
+                r["end"] = len(buf)
+                return r
+            if buf[p + n:p + n + 2] != b"\r\n":
+                r["ok"] = False
+                r["why"] = "chunk data not followed by CRLF"
+                return r
+            body += buf[p:p + n]
+            p += n + 2
+    if cl:
+        n = int(cl[0])
+        r["framing"] = "length"
+        r["body"] = buf[p:p + n]
+        r["end"] = min(len(buf), p + n)
+        r["complete"] = len(buf) >= p + n
+        if not r["complete"]:
+            r["why"] = "body shorter than Content-Length"
+        return r
+    r["framing"] = "close"
+    r["body"] = buf[p:]
+    r["end"] = len(buf)
+    r["complete"] = True          # delimited by the close; the caller knows whether the server closed
+    return r
+
+
+def says_close(r):
+    return [v.lower() for k, v in r["fields"] if k == b"connection"] == [b"close"]
+
+
+def is_error_page(r):
+    """gunicorn's own error response (util.write_error) carries no Server header"""
+    return not any(k == b"server" for k, v in r["fields"])
+
+
+def split_wire(wire, head_flags):
+    """Parse the whole wire into responses.  head_flags[i] tells whether the i-th dispatched request was a HEAD.
+    Returns (responses, leftover_bytes)."""
+    out = []
+    pos = 0
+    i = 0
+    while pos < len(wire):
+        hr = head_flags[i] if i < len(head_flags) else False
+        r = read_response(wire, pos, hr)
+        if not (r["ok"] and r["complete"]):
+            # gunicorn's error page may follow where a HEAD response was expected
+            if hr:
+                r2 = read_response(wire, pos, False)
+                if r2["ok"] and r2["complete"] and is_error_page(r2):
+                    r = r2
+                else:
+                    return out, wire[pos:], r
+            else:
+                return out, wire[pos:], r
+        if r["ok"] and r["complete"] and hr and is_error_page(r) and r["framing"] == "none":
+            r = read_response(wire, pos, False)
+        out.append(r)
+        pos = r["end"]
+        if not (100 <= r["status"] < 200):
+            i += 1
+    return out, b"", None
+
+
+# --------------------------------------------------------------------------------------------------
+# real socket pairs
+# --------------------------------------------------------------------------------------------------
+def unix_pair():
+    a, b = socket.socketpair()
+    return a, b
+
+
+def tcp_pair():
+    ls = socket.socket()
+    ls.bind(("127.0.0.1", 0))
+    ls.listen(1)
+    c = socket.create_connection(ls.getsockname())
+    s, _ = ls.accept()
+    ls.close()
+    return s, c
+
+
+def client_end(c, how):
+    """end the client side: half-close, close, or reset (SO_LINGER 0)"""
+    import struct
+    try:
+        if how == "shut":
+            c.shutdown(socket.SHUT_WR)
+        elif how == "close":
+            c.close()
+        elif how == "rst":
+            c.setsockopt(socket.SOL_SOCKET, socket.SO_LINGER, struct.pack("ii", 1, 0))
+            c.close()
+    except OSError:
+        pass
+
+
+def drain_client(c, limit=1 << 20):
+    """what the client can still read; b'' when it is closed already"""
+    if c.fileno() < 0:
+        return b""
+    out = b""
+    c.settimeout(1.0)
+    try:
+        while len(out) < limit:
+            d = c.recv(65536)
+            if not d:
+                break
+            out += d
+    except OSError:
+        pass
+    return out
